@@ -93,7 +93,48 @@ class NestE(RawDom):
     y: Any = None
 
 
-SHAPES = ["FlatRaw", "FlatReg", "FlatTyme", "FlatIce", "Nest1", "Nest2", "IceNest", "RegNest", "NestE"]
+@dataclass
+class SubNest(Nest1):
+    """inherits its nested data object field (and y) from its parent class, declares only w itself"""
+    w: Any = None
+
+
+@dataclass
+class Under(RawDom):
+    """a field whose name starts with an underscore is a field like any other"""
+    _id: Any = None
+    v: Any = None
+
+
+@dataclass
+class NestU(RawDom):
+    u: Under = None
+    y: Any = None
+
+
+@dataclass
+class Hooked(RawDom):
+    """the documented hook pair: its own mapping out (_dictify) and back (_datify)"""
+    a: Any = None
+    b: Any = 1
+
+    def _dictify(self):
+        return {"A": self.a, "B": self.b}
+
+    @classmethod
+    def _datify(cls, d):
+        return cls(a=d["A"], b=d["B"])
+
+
+@dataclass
+class NestH(RawDom):
+    h: Hooked = None
+    y: Any = None
+
+
+SHAPES = ["FlatRaw", "FlatReg", "FlatTyme", "FlatIce", "Nest1", "Nest2", "IceNest", "RegNest", "NestE", "SubNest", "Under", "NestU", "Hooked"]
+# (NestH, a hooked class nested in another, is not in the set: hio documents the _datify hook for nested classes and the _dictify hook
+#  for the object itself only, so what a nested hook pair should do is not fixed by the documentation)
 FORMATS = [("json", "_asjson", "_fromjson"), ("cbor", "_ascbor", "_fromcbor"), ("mgpk", "_asmgpk", "_frommgpk")]
 
 
@@ -277,6 +318,16 @@ def build(shape, t, s):
         return RegNest(x=FlatReg(a=t, b=s), y=FlatTyme(a=s, b=t))
     if shape == "NestE":
         return NestE(e=Empty(), y=t)
+    if shape == "SubNest":
+        return SubNest(x=FlatRaw(a=t, b=s), y=t, w=s)
+    if shape == "Under":
+        return Under(_id=t, v=s)
+    if shape == "NestU":
+        return NestU(u=Under(_id=s, v=t), y=t)
+    if shape == "Hooked":
+        return Hooked(a=t, b=s)
+    if shape == "NestH":
+        return NestH(h=Hooked(a=t, b=s), y=s)
     raise AssertionError(shape)
 
 
@@ -315,6 +366,15 @@ def _roundtrip(shape, obj, phase):
         try:
             raw = getattr(obj, ser)()
             back = getattr(type(obj), de)(raw)
+            if type(back) is not type(obj):
+                v.append(("%s:class:%s%s" % (fmt, shape, phase), "%s round trip of %r gave class %s" % (fmt, obj, type(back).__name__)))
+                continue
+            if not (back == obj):
+                v.append(("%s:not-equal:%s%s" % (fmt, shape, phase), "%s round trip of %r gave %r" % (fmt, obj, back)))
+                continue
+            if not strict_eq(back, obj):
+                v.append(("%s:type-drift:%s%s" % (fmt, shape, phase), "%s round trip of %r gave %r (types differ)" % (fmt, obj, back)))
+                continue
             # the same serialisation read a second time, after the first result was edited in place, is the original again
             edited = False
             for f in fields(back):
@@ -330,17 +390,8 @@ def _roundtrip(shape, obj, phase):
                 if not (back2 == obj):
                     v.append(("%s:second-read-differs:%s%s" % (fmt, shape, phase), "%s: reading %r a second time, after the first result was "
                               "edited in place, gave %r, original %r" % (fmt, raw, back2, obj)))
-                    continue
-                back = back2
         except Exception as ex:
             v.append(("%s:raises:%s:%s%s" % (fmt, type(ex).__name__, shape, phase), "%s round trip of %r raised %r" % (fmt, obj, ex)))
-            continue
-        if type(back) is not type(obj):
-            v.append(("%s:class:%s%s" % (fmt, shape, phase), "%s round trip of %r gave class %s" % (fmt, obj, type(back).__name__)))
-        elif not (back == obj):
-            v.append(("%s:not-equal:%s%s" % (fmt, shape, phase), "%s round trip of %r gave %r" % (fmt, obj, back)))
-        elif not strict_eq(back, obj):
-            v.append(("%s:type-drift:%s%s" % (fmt, shape, phase), "%s round trip of %r gave %r (types differ)" % (fmt, obj, back)))
     return v
 
 
